@@ -160,6 +160,7 @@ func allocScript(rep *Report, m *model.Client, r *rand.Rand) int {
 		return 0
 	}
 	var ops []string
+	var beginSnap txfile.VerifAllocSnap
 	inTx := false
 	var owned []uint64 // data pages handed out in this tx
 	nops := 5 + r.Intn(40)
@@ -168,6 +169,7 @@ func allocScript(rep *Report, m *model.Client, r *rand.Rand) int {
 		if !inTx {
 			ovf := r.Intn(4) == 0
 			pct := []int{0, 0, 10, 50, 100}[r.Intn(5)]
+			beginSnap = v.Snap()
 			v.Begin(ovf, pct)
 			req, impl = fmt.Sprintf("begin %s %d", b01(ovf), pct), "ok"
 			inTx = true
@@ -238,10 +240,18 @@ func allocScript(rep *Report, m *model.Client, r *rand.Rand) int {
 				if p {
 					impl = "panic"
 				}
-			case x < 92:
+			case x < 90:
 				extra := r.Intn(3) == 0
 				out := v.Commit(extra)
 				req, impl = "commit "+b01(extra), out
+				if out == "ok" {
+					inTx = false
+				}
+			case x < 93:
+				// a commit that fails after its allocation step and is rolled back
+				extra := r.Intn(3) == 0
+				out := v.CommitFail(extra)
+				req, impl = "commitfail "+b01(extra), out
 				if out == "ok" {
 					inTx = false
 				}
@@ -255,6 +265,16 @@ func allocScript(rep *Report, m *model.Client, r *rand.Rand) int {
 		impl = impl + " ; " + allocStateString(v.Snap())
 		mod := m.Ask("alloc_op " + req)
 		rep.count("alloc:"+firstWord(req), 1)
+		if impl != mod && !inTx && (firstWord(req) == "commitfail" || firstWord(req) == "rollback") {
+			// the model and the implementation disagree on the state an aborted transaction leaves: is the
+			// implementation's state the one the transaction began with (C07)?
+			if d := allocSetsDiff(beginSnap, v.Snap()); d != "" {
+				rep.violate(Violation{Kind: "oracle", Sig: "alloc-script/abort-leaves-trace/" + firstWord(req),
+					Detail: fmt.Sprintf("allocator script: after %q (step %d) the allocator is not in the state the transaction began with: %s", req, len(ops)-1, d),
+					Replay: allocReplay{Init: init, Ops: ops, Step: len(ops) - 1, Impl: impl, Model: mod}})
+				return len(ops)
+			}
+		}
 		if impl != mod {
 			rep.violate(Violation{Kind: "correspondence", Sig: "alloc-script/" + firstWord(req),
 				Detail: fmt.Sprintf("allocator model differs from implementation after %q (step %d): impl=%q model=%q", req, len(ops)-1, impl, mod),
@@ -266,6 +286,41 @@ func allocScript(rep *Report, m *model.Client, r *rand.Rand) int {
 		}
 	}
 	return len(ops)
+}
+
+// allocSetsDiff compares two allocator states as sets of free pages + markers + counters.
+func allocSetsDiff(a, b txfile.VerifAllocSnap) string {
+	ids := func(l []txfile.VerifRegion) map[uint64]bool {
+		m := map[uint64]bool{}
+		for _, r := range l {
+			for id := r.ID; id < r.ID+uint64(r.Count); id++ {
+				m[id] = true
+			}
+		}
+		return m
+	}
+	same := func(x, y map[uint64]bool) bool {
+		if len(x) != len(y) {
+			return false
+		}
+		for k := range x {
+			if !y[k] {
+				return false
+			}
+		}
+		return true
+	}
+	switch {
+	case a.DataEnd != b.DataEnd || a.MetaEnd != b.MetaEnd:
+		return fmt.Sprintf("end markers (data %d, meta %d), before (data %d, meta %d)", b.DataEnd, b.MetaEnd, a.DataEnd, a.MetaEnd)
+	case a.MetaTotal != b.MetaTotal:
+		return fmt.Sprintf("meta area size %d, before %d", b.MetaTotal, a.MetaTotal)
+	case !same(ids(a.DataFree), ids(b.DataFree)) || a.DataAvail != b.DataAvail:
+		return fmt.Sprintf("data free list %v (avail %d), before %v (avail %d)", b.DataFree, b.DataAvail, a.DataFree, a.DataAvail)
+	case !same(ids(a.MetaFree), ids(b.MetaFree)) || a.MetaAvail != b.MetaAvail:
+		return fmt.Sprintf("meta free list %v (avail %d), before %v (avail %d)", b.MetaFree, b.MetaAvail, a.MetaFree, a.MetaAvail)
+	}
+	return ""
 }
 
 // pickLive returns a page id in [2, dataEnd) that is in no free list and in no tx set (a live page).
